@@ -24,7 +24,7 @@ RULE = (
 
 INIT_LOG = []
 CLASS_NAMES = ["FlatA", "FlatB", "Top", "Mid", "Leaf", "Derived", "SVert", "EmptyReg", "NoBool", "Nester", "Resetter",
-               "SelfResetter", "Backend"]
+               "SelfResetter", "Backend", "Shadowy"]
 ARGS = [(), (1,), (2, 3), ("x",), (None,), ([1, 2],), (0,), (False,)]
 KWARGS = [{}, {"a": 1}, {"b": [1]}, {"a": None, "b": 2},
           # keyword names an implementation might use for its own parameters
@@ -85,6 +85,16 @@ def make_classes():
     class BackendImpl(Backend):
         pass
 
+    class Shadowy(Base, metaclass=singleton.TrueSingleton):
+        """A class that happens to have class-level mappings of its own under registry-like names."""
+
+        _instances = {}
+        instances = {}
+        _instance = None
+        _registry = {}
+        _singleton_instances = {}
+        __singleton_instances = {}
+
     class Nester(Base, metaclass=singleton.TrueSingleton):
         """A singleton whose __init__ obtains another singleton (a service locating its registry)."""
 
@@ -109,7 +119,7 @@ def make_classes():
     # start from a clean table whatever ran before in this process
     singleton.clear_true_singleton()
     return {c.__name__: c for c in (FlatA, FlatB, Top, Mid, Leaf, Derived, SVert, EmptyReg, NoBool, Nester, Resetter,
-                                    SelfResetter, Backend)}
+                                    SelfResetter, Backend, Shadowy)}
 
 
 class _Ref:
@@ -308,7 +318,7 @@ def prelude():
     ALL = {"op": "clear_all"}
     for a, b in (("FlatA", "FlatB"), ("Top", "Mid"), ("Mid", "Top"), ("Leaf", "Top"), ("Derived", "FlatA"), ("SVert", "Mid"), ("EmptyReg", "FlatA"), ("NoBool", "EmptyReg"),
                  ("Nester", "FlatA"), ("FlatA", "Nester"), ("Resetter", "FlatA"), ("FlatB", "Resetter"), ("SelfResetter", "Top"),
-                 ("Nester", "Resetter"), ("Backend", "FlatA"), ("Top", "Backend")):
+                 ("Nester", "Resetter"), ("Backend", "FlatA"), ("Top", "Backend"), ("Shadowy", "FlatA"), ("Mid", "Shadowy")):
         out.append([N(a, 1), N(b, 2, 1), N(a, 3), C(a), N(a, 2), N(b), C(b), C(b), N(b, 1), ALL, N(a), N(b), C(a), ALL, ALL,
                     N(b, 4), N(a, 5, 2), C(b), N(a), N(b)])
         out.append([C(a), N(a, 7), ALL, C(a), N(a, 6), N(a, 1)])
